@@ -18,6 +18,9 @@ StepPlusDays(e) ==
   IF Fits31(tgt) /\ ToInt(tgt) >= e.min_day /\ ToInt(tgt) <= e.max_day
   THEN /\ Check(~Has(e, "exc"), "plus_days_in_range_must_not_raise")
        /\ (Has(e, "res") => Check(e.res = ToInt(tgt) /\ e.res_cal = e.cal, "plus_days_moves_exactly_n_days"))
+       \* the result is a date of the calendar: the one its own day number names (not, say, a 30th of a 29-day month that happens
+       \* to count as the next day)
+       /\ (Has(e, "res_valid") => Check(e.res_valid, "plus_days_yields_a_valid_date"))
   ELSE Check(Has(e, "exc"), "plus_days_out_of_range_must_raise")
 
 StepPlusMonths(e) ==
